@@ -270,6 +270,28 @@ def scan_record(name, s):
     )
 
 
+def initialised_rows():
+    """observe the REAL _initialize_aggregation: effective chunk / combine / intermediate fills per min_count"""
+    rows = []
+    for name, a in A.AGGREGATIONS.items():
+        if not isinstance(a, A.Aggregation):
+            continue
+        for mc in (0, 1, 2):
+            for dt_name in ("float64", "int64"):
+                try:
+                    agg = A._initialize_aggregation(name, None, np.dtype(dt_name), None, mc, {"q": 0.5} if "quantile" in name else None)
+                except Exception as e:  # noqa: BLE001
+                    rows.append(f"  ({q(name)}, {mc}, {q(dt_name)}, None)")
+                    continue
+                fills = []
+                for f in agg.fill_value["intermediate"]:
+                    fills.append(fill(f) if not (isinstance(f, (int, np.integer)) and not isinstance(f, (bool, np.bool_)) and abs(int(f)) > 2 ** 40)
+                                 else ("FvInf" if int(f) > 0 else "FvNinf"))
+                rows.append(f"  ({q(name)}, {mc}, {q(dt_name)}, Some ({z(agg.min_count)}, {oplist(agg.chunk)}, {oplist(agg.combine)}, "
+                            f"[{'; '.join(fills)}]))")
+    return rows
+
+
 def main(out):
     srcs = ["/repo/flox/aggregations.py", "/repo/flox/xrdtypes.py"]
     h = hashlib.sha256()
@@ -291,7 +313,11 @@ def main(out):
         "From Coq Require Import ZArith String List.\nFrom Flox Require Import Val Agg.\nImport ListNotations.\nOpen Scope Z_scope.\n\n"
         "Definition aggregations : list AggDesc := [\n" + ";\n".join(aggs) + "\n].\n\n"
         "Definition scans : list ScanDesc := [\n" + ";\n".join(scans) + "\n].\n\n"
-        "Definition unrecognised_entries : list string := [" + "; ".join(q(o) for o in other) + "].\n"
+        "Definition unrecognised_entries : list string := [" + "; ".join(q(o) for o in other) + "].\n\n"
+        "(* _initialize_aggregation observed on (name, min_count, array dtype):\n"
+        "   Some (resolved min_count, chunk, combine, intermediate fills) *)\n"
+        "Definition initialised : list (string * Z * string * option (Z * option (list opname) * option (list opname) * list fillv)) := [\n"
+        + ";\n".join(initialised_rows()) + "\n].\n"
     )
     try:
         old = open(out).read()
